@@ -828,6 +828,9 @@ func init() {
 		}
 		pkt := buildClientPacket(c.ver, a[1:])
 		if a[1] == "PUBLISH" {
+			if b.pubEff == nil { // states built by other suites (restart, shutdown)
+				b.pubEff = map[string]int{}
+			}
 			m := kvs(a[2:])
 			if _, seen := b.pubEff[m["p"]]; !seen && m["p"] != "" && m["p"] != "-" {
 				me := 0
